@@ -425,7 +425,7 @@ def run(ctx):
         ctx.note(case, nt, cl)
         ctx.handle(case, fails)
 
-    core.run_given(ctx, history(), body, ctx.n(1100, 7000), label="c11-histories")
+    core.run_given(ctx, history(), body, ctx.n(1000, 7000), label="c11-histories")
     ctx.notes["generator-health"] = _health(ctx)
 
 
